@@ -1,6 +1,9 @@
 """Witness for a failed VU-keyuse clause: every tracing record (all levels) and every response produced while SigV4 / SigV2
 requests are verified against providers holding secrets of 40..300 characters is scanned for the secret (replay secret-log)."""
 def find(ctx, oblig, diag):
+    r0 = ctx["replay_tool"](["secret"])
+    if r0 is not None and r0.get("violates"):
+        r0["source"] = "Debug / serde renderings of SecretKey and Credentials"; return r0
     res = ctx["replay_tool"](["secret-log"])
     if res.get("violates"): res["source"] = "trace records captured by a capture-everything tracing subscriber around S3Service::call"
     return res
